@@ -174,13 +174,16 @@ class Gen:
             rx = self.regex(self.o['depth'], top=True)
             if elided:
                 g.features.add('elided_rule')
-            # whole-rule creation `>`: in elided rules, and (half as often) in ordinary non-start rules
-            if (elided or (not is_start and rng.random() < 0.5)) and self.p('whole_create') and rx[0] == 'cat':
+            # whole-rule creation `>`: in elided rules, (half as often) in ordinary non-start rules and (a third as often)
+            # in the start rule, whose node is opened by parse_rule
+            if (elided or (not is_start and rng.random() < 0.5) or (is_start and rng.random() < 0.35)) and self.p('whole_create') and rx[0] == 'cat':
                 pos = rng.randint(1, len(rx[1]))
                 rx = ('cat', rx[1][:pos] + [('create', None, rng.choice(['w', None] + self.names[1:]))] + rx[1][pos:])
                 g.features.add('whole_create')
                 if not elided:
                     g.features.add('whole_create_plain')
+                if is_start:
+                    g.features.add('whole_create_start')
             g.rules.append((nm, elided, rx))
         # make sure every rule is referenced at least once: append references to the start rule
         refd = set()
@@ -368,17 +371,25 @@ class Gen:
         nop = rng.randint(1, 4)
         used = []
         # operator profiles: mixed, or no infix operator at all (only postfix here, prefix below)
-        profile = rng.choice([['infix', 'infix', 'infix2', 'postfix', 'mixfix']] * 3 + [['postfix']])
+        profile = rng.choice([['infix', 'infix', 'infix2', 'postfix', 'mixfix']] * 4 + [['postfix']] + [['lone']])
         only_unary = profile == ['postfix']
+        # 'lone': exactly one binary branch (often right associative) among postfix branches, usually no prefix branch
+        lone = profile == ['lone']
+        lone_kinds = []
+        if lone:
+            nop = rng.randint(2, 3)
+            lone_kinds = ['postfix'] * nop
+            lone_kinds[rng.randint(0, nop - 1) if rng.random() < 0.4 else 0] = 'infix'
+            g.features.add('pratt_lone_binary')
         for i in range(nop):
             if len(pool) < 3:
                 break
-            kind = rng.choice(profile)
+            kind = lone_kinds[i] if lone else rng.choice(profile)
             if kind == 'infix':
                 t = pool.pop()
                 used.append(t)
                 b = ('cat', [('rule', nm), ('tok', t), ('rule', nm)])
-                if rng.random() < 0.5:
+                if rng.random() < (0.7 if lone else 0.5):
                     g.right.append(t)
             elif kind == 'infix2':
                 t1, t2 = pool.pop(), pool.pop()
@@ -416,7 +427,7 @@ class Gen:
                 g.features.add('pratt_deco')
             branches.append(b)
         # prefix (interleaved with the other branches when there is no infix operator)
-        npre = rng.randint(1, 2) if only_unary else (1 if rng.random() < 0.5 else 0)
+        npre = rng.randint(1, 2) if only_unary else (1 if rng.random() < (0.2 if lone else 0.5) else 0)
         for _ in range(npre):
             if pool:
                 t = pool.pop()
